@@ -467,6 +467,9 @@ class Impure(Exception):
 
 
 class SkTx:
+    natk = NATK          # Nat-kind integer types (subclasses may re-assign the two tables)
+    bvk = BVK            # BitVec-kind integer types
+
     def __init__(self, idx, Parser):
         self.idx = idx
         self.Parser = Parser
@@ -491,14 +494,14 @@ class SkTx:
         return n
 
     def is_nat(self, ty):
-        return isinstance(ty, str) and ty in NATK
+        return isinstance(ty, str) and ty in self.natk
 
     def is_bv(self, ty):
-        return (isinstance(ty, str) and ty in BVK) or (isinstance(ty, tuple) and ty[0] == "tv")
+        return (isinstance(ty, str) and ty in self.bvk) or (isinstance(ty, tuple) and ty[0] == "tv")
 
     def width(self, ty):
-        if isinstance(ty, str) and ty in BVK:
-            return str(BVK[ty])
+        if isinstance(ty, str) and ty in self.bvk:
+            return str(self.bvk[ty])
         if isinstance(ty, tuple) and ty[0] == "tv":
             return self.wname[ty[1]]
         self.err(f"internal: width of {ty}")
@@ -534,7 +537,7 @@ class SkTx:
     def rty(self, toks):
         t = [x for x in toks if not x.startswith("'") and x not in ("&", "mut")]
         s = "".join(t)
-        if s in NATK or s in BVK:
+        if s in self.natk or s in self.bvk:
             return s
         if s == "bool":
             return "bool"
@@ -558,13 +561,13 @@ class SkTx:
     def lit_lean(self, v, ty):
         ty = self.resolve(ty)
         if self.is_nat(ty):
-            if not 0 <= v < 2 ** NATK[ty]:
+            if not 0 <= v < 2 ** self.natk[ty]:
                 self.err(f"literal {v} does not fit {ty}")
             return str(v)
-        if isinstance(ty, str) and ty in BVK and ty != "i64":
-            if not 0 <= v < 2 ** BVK[ty]:
+        if isinstance(ty, str) and ty in self.bvk and ty != "i64":
+            if not 0 <= v < 2 ** self.bvk[ty]:
                 self.err(f"literal {v} does not fit {ty}")
-            return f"({v}#{BVK[ty]})"
+            return f"({v}#{self.bvk[ty]})"
         self.err(f"integer literal of type {ty}")
 
     def typed(self, v, ty, what="value"):
@@ -656,7 +659,7 @@ class SkTx:
                     self.err("`!` of an untyped literal")
                 if self.is_nat(a.ty):
                     self.used.add("bitops")
-                    return V(f"notU {NATK[a.ty]} {par(a.lean)}", a.ty)
+                    return V(f"notU {self.natk[a.ty]} {par(a.lean)}", a.ty)
                 if self.is_bv(a.ty):
                     self.used.add("bitops")
                     return V(f"~~~{par(a.lean)}", a.ty)
@@ -763,14 +766,14 @@ class SkTx:
             if self.const_mode:
                 return V(f"{par(a.lean)} {'<<<' if op == '<<' else '>>>'} {par(b.lean)}", a.ty)
             if self.is_nat(a.ty):
-                W = NATK[a.ty]
+                W = self.natk[a.ty]
                 if b.lit is not None and b.lit < W:
                     k = b.lean
                 else:
                     k = self.step(f"shAmt dbg {W} {par(b.lean)}")
                 return V(f"shlU {W} {par(a.lean)} {par(k)}" if op == "<<" else f"shrU {par(a.lean)} {par(k)}", a.ty)
             if self.is_bv(a.ty):
-                if b.lit is not None and isinstance(a.ty, str) and b.lit < BVK[a.ty]:
+                if b.lit is not None and isinstance(a.ty, str) and b.lit < self.bvk[a.ty]:
                     return V(f"{par(a.lean)} {'<<<' if op == '<<' else '>>>'} {b.lean}", a.ty)
                 r = self.step(f"{'shlB' if op == '<<' else 'shrB'} dbg {par(a.lean)} {par(b.lean)}")
                 return V(r, a.ty)
@@ -793,7 +796,7 @@ class SkTx:
             sym = {"==": "=", "!=": "≠", "<": "<", ">": ">", "<=": "≤", ">=": "≥"}[op]
             return V(f"{a.lean} {sym} {b.lean}", "bool", prop=True)
         if self.is_nat(ty):
-            W = NATK[ty]
+            W = self.natk[ty]
             self.used.add("arith")
             if self.const_mode:
                 if op in ("+", "*", "/"):
@@ -976,7 +979,7 @@ class SkTx:
             self.used.add("vec")
             return V(f"{par(r.lean)}.length", "usize")
         if self.is_nat(ty):
-            W = NATK[ty]
+            W = self.natk[ty]
             if name == "wrapping_add" and len(args) == 1:
                 b = self.typed(self.ex(args[0], env, ty), ty)
                 self.used.add("wrapping")
@@ -1188,9 +1191,12 @@ class SkTx:
         self.err(f"statement form `{k}`")
 
     def declare(self, env, name, ty, mut):
-        if name in env and env[name].depth < self.depth:
-            self.err(f"`let {name}` in a nested block shadows an outer variable")
         ln = self.mangle(name)
+        if name in env and env[name].depth < self.depth:
+            # a `let` in a nested block that shadows an outer variable gets its own Lean name: the outer binding stays
+            # visible to the statements after the block
+            self.shadow_count = getattr(self, "shadow_count", 0) + 1
+            ln = f"{ln}_s{self.shadow_count}"
         env[name] = Var(ln, ty, mut, self.depth)
         return ln
 
@@ -1251,7 +1257,7 @@ class SkTx:
             if b.ty != "usize" or not self.is_bv(cur.ty):
                 self.err(f"`{op}`")
             self.used.add("shift")
-            if b.lit is not None and isinstance(cur.ty, str) and b.lit < BVK[cur.ty]:
+            if b.lit is not None and isinstance(cur.ty, str) and b.lit < self.bvk[cur.ty]:
                 val = f"{par(cur.lean)} {'<<<' if bop == '<<' else '>>>'} {b.lean}"
             else:
                 val = self.step(f"{'shlB' if bop == '<<' else 'shrB'} dbg {par(cur.lean)} {par(b.lean)}")
@@ -1262,7 +1268,7 @@ class SkTx:
         if isinstance(cur.ty, tuple) and cur.ty[0] == "infer":
             cur = V(cur.lean, self.resolve(b.ty))
         if self.is_nat(cur.ty):
-            W = NATK[cur.ty]
+            W = self.natk[cur.ty]
             self.used.add("arith")
             if bop in ("+", "-", "*"):
                 val = self.step(f"{ {'+': 'addU', '-': 'subU', '*': 'mulU'}[bop] } dbg {W} {par(cur.lean)} {par(b.lean)}")
@@ -1513,7 +1519,7 @@ class SkTx:
                 self.fields[f] = "usize"
             else:
                 fail(f"struct MemSink: field {f}: type `{s}`")
-        self.self_lty = "MemSink sw" if self.sgen else f"MemSink {BVK[el]}"
+        self.self_lty = "MemSink sw" if self.sgen else f"MemSink {self.bvk[el]}"
 
     def idx_group(self, group):
         d = SK_GROUPS[group]
